@@ -274,9 +274,11 @@ def d2_duplicates(chk, F):
                            "two names that are equal once stored may not be detected",
                            sample=f"{where}: checked key and stored names both go through {sorted(ktrim)}")
         else:
-            stored = [d["name"] for ff, i, s, d in aggregates(F, f.key, "aisle::Category") if ff is f]
-            for op in stored:
-                e = resolve(f, op)
+            # every Category built anywhere in parse (closures included): a category created on another path with another
+            # name (e.g. an implicit unnamed one) never went through the duplicate check
+            stored = [(ff, d["name"]) for ff, i, s, d in aggregates(F, f.key, "aisle::Category")]
+            for ff, op in stored:
+                e = resolve(ff, op)
                 chk.expect(full(e) == ktxt, "C11.D2-duplicates", "parse|used_categories|stored-vs-checked", where,
                            "the category name that is stored is not the expression that was checked for duplicates",
                            sample=f"{where}: Category.name is the checked key")
